@@ -87,6 +87,12 @@ func runC12(p *Prog, r *Report) {
 	r.Rule("D4-identity", "package.json: the buffer changes only inside the update loop; it is what gets written")
 	r.Rule("D6-section-bookkeeping", "pom.xml: a section is marked as handled under the origin whose patches were applied to it")
 	r.Rule("D7-filter-semantics", "MatchVuln decides exactly as the option semantics says")
+	r.Rule("D8-clone", "a manifest clone carries every field of the original")
+	r.Rule("D9-identity", "pom.xml: projects and dependencies are identified the same way by the reader and the writer")
+	r.Rule("D10-parent-origin", "pom.xml writer: a parent's requirements are filed under the path of the parent file that was opened")
+	c12Clone(p, r)
+	c13Identity(p, r)
+	c13ParentOrigin(p, r, "D10-parent-origin")
 	c12MatchTable(p, r)
 	c12View(p, r)
 	c12Dedupe(p, r)
@@ -1050,4 +1056,79 @@ func c12MatchTable(p *Prog, r *Report) {
 		}
 	}
 	r.OK("D7-filter-semantics", site, p.Pos(fn.Pos()), fmt.Sprintf("equals the option semantics on all %d combinations of its %d tests", len(table), len(atoms)))
+}
+
+// c12Clone: the strategies analyse every candidate patch on Manifest.Clone(). The clone must carry
+// every field of the receiver: each field of the receiver's struct is read in Clone, every loop in
+// Clone ranges over data of the receiver (never over the still-empty clone), and every field of the
+// new value is stored.
+func c12Clone(p *Prog, r *Report) {
+	n := 0
+	for _, x := range []struct{ rel, name string }{
+		{"guidedremediation/internal/manifest/npm", "npmManifest.Clone"},
+		{"guidedremediation/internal/manifest/maven", "mavenManifest.Clone"},
+	} {
+		fn := p.Func(x.rel, x.name)
+		if fn == nil {
+			r.Undecided("D8-clone", "anchor:"+x.name, "-", "not found")
+			continue
+		}
+		n++
+		recv := fn.Params[0]
+		st, _ := structOf(recv.Type())
+		if st == nil {
+			r.Undecided("D8-clone", x.name+":receiver", p.Pos(fn.Pos()), "receiver is not a struct pointer")
+			continue
+		}
+		read := map[string]bool{}
+		forEachInstr(fn, func(_ *ssa.BasicBlock, _ int, in ssa.Instruction) {
+			if fa, ok := in.(*ssa.FieldAddr); ok && rootParam(fa.X) == ssa.Value(recv) {
+				if s2, _ := structOf(fa.X.Type()); s2 == st {
+					read[st.Field(fa.Field).Name()] = true
+				}
+			}
+		})
+		for i := 0; i < st.NumFields(); i++ {
+			f := st.Field(i).Name()
+			r.Check(read[f], "D8-clone", x.name+":reads:"+f, p.Pos(fn.Pos()), "copied from the receiver", "Clone never reads field "+f+" of the manifest it clones: the clone the strategies analyse differs from the manifest that is written")
+		}
+		// loops range over the receiver's data
+		for _, b := range fn.Blocks {
+			for _, in := range b.Instrs {
+				var src ssa.Value
+				switch y := in.(type) {
+				case *ssa.Range:
+					src = y.X
+				case *ssa.Call:
+					if bi, ok := y.Call.Value.(*ssa.Builtin); ok && bi.Name() == "len" && isLoopHeaderOrPre(b) {
+						src = y.Call.Args[0]
+					}
+				}
+				if src == nil {
+					continue
+				}
+				switch src.Type().Underlying().(type) {
+				case *types.Map, *types.Slice:
+				default:
+					continue
+				}
+				root := rootParam(src)
+				r.Check(root == ssa.Value(recv), "D8-clone", fmt.Sprintf("%s:loop-over:%s", x.name, short(renderValueDeep(src), 60)), p.Pos(in.Pos()), "iterates over the receiver's data", "a loop in Clone iterates over data of the new (still empty) value instead of the manifest being cloned: nothing is copied, so the clone silently lacks that data (e.g. the dependency groups that decide dev-only filtering)")
+			}
+		}
+	}
+	r.Instances("D8-clone", "manifest Clone methods", n, 2)
+}
+
+// isLoopHeaderOrPre: b is a loop header or the block that computes the bound of a range-by-index loop.
+func isLoopHeaderOrPre(b *ssa.BasicBlock) bool {
+	if isLoopHeader(b) {
+		return true
+	}
+	for _, sc := range b.Succs {
+		if isLoopHeader(sc) {
+			return true
+		}
+	}
+	return false
 }
